@@ -275,6 +275,13 @@ ADVERSARIAL = ["task", "tasks", "depends", "precedes", "effort", "allocate", "st
 DAY_NAMES = {"mon", "tue", "wed", "thu", "fri", "sat", "sun"}
 
 
+def leaf_resource_ids(resources):
+    out = []
+    for r in resources:
+        out += r.get("members") or [r["id"]]
+    return out
+
+
 def gen_project(rng):
     nres = rng.randint(1, 3)
     shift = None
@@ -290,6 +297,11 @@ def gen_project(rng):
             d = rng.randint(6, 20)
             leave = ["2025-01-%02d" % d, "2025-01-%02d" % (d + rng.randint(1, 3))]
         resources.append({"id": "r%d" % (i + 1), "shift": bool(shift) and rng.random() < 0.7, "leave": leave})
+    if shift and rng.random() < 0.4:
+        # a resource group that carries the shift (by reference or inline, see `inline_shift`); its members have no hours of
+        # their own and inherit the group's
+        resources.append({"id": "g1", "shift": True, "leave": None,
+                          "members": ["m%d" % (j + 1) for j in range(rng.randint(1, 2))]})
     # task tree
     ntasks = rng.randint(2, 7)
     count = [0]
@@ -322,7 +334,7 @@ def gen_project(rng):
     for path, t in nodes:
         if not t["kids"]:
             t["effort"] = rng.choice(EFFORTS)
-            t["res"] = rng.choice(resources)["id"]
+            t["res"] = rng.choice(leaf_resource_ids(resources))
             if rng.random() < 0.5:
                 t["prio"] = rng.choice([100, 300, 500, 700, 900, 1000])
     # DAG: src depends on dst, dst earlier in a random topological order, not ancestor-related
@@ -350,7 +362,7 @@ def gen_twin_project(rng):
     """two containers with the SAME local id under different parents, whose children use the same
     relative reference strings for different targets (reference resolution must be per position)"""
     base = gen_project(rng)
-    res = [r["id"] for r in base["resources"]]
+    res = leaf_resource_ids(base["resources"])
     cid = rng.choice(["dev", "box", "in"])
 
     def phase(pid, e1, e2):
@@ -376,7 +388,10 @@ def project_ids(proj):
             tids.add(t["id"])
             walk(t["kids"])
     walk(proj["tasks"])
-    return sorted(tids), [r["id"] for r in proj["resources"]], ([proj["shift"]["id"]] if proj["shift"] else [])
+    rids = []
+    for r in proj["resources"]:
+        rids += [r["id"]] + (r.get("members") or [])
+    return sorted(tids), rids, ([proj["shift"]["id"]] if proj["shift"] else [])
 
 
 def gen_rename(rng, proj, adversarial=True):
@@ -496,6 +511,9 @@ def render_project(proj, opt):
                 emit(f'workinghours {S(sh["id"])}', "  ")
         if r["leave"]:
             emit(f'leaves annual {r["leave"][0]} - {r["leave"][1]}', "  ")
+        for m in r.get("members") or []:
+            emit(f'resource {R(m)} "Member" {{', "  ")
+            emit("}", "  ")
         emit("}")
     dep_of, prec_of = {}, {}
     for i, d in enumerate(proj["deps"]):
